@@ -93,6 +93,10 @@ def make_harness(P):
         if ctx.symbolic:
             _, undo = stubs.lapack_contract(ctx, modules=("renormalizer.mps.svd_qn",))
         before = lib.dense_of(mp)
+        if ctx.symbolic and all((hasattr(x, "const_value") and x.const_value() == 0) or (not hasattr(x, "const_value") and x == 0) for x in np.asarray(before).ravel()):
+            return      # label structure that can only represent the ZERO object (no label path from one end to the other): nothing to canonicalise, svd_qn has no block
+        if (not ctx.symbolic) and not np.any(np.asarray(before)):
+            return
         bonds_before = list(mp.bond_dims)
         caps = cs.bond_caps(mp)
         old_arrays = [mp[i].array for i in range(n)]
